@@ -36,7 +36,7 @@ ASSUMPTIONS = ["reference model: reads are no-ops, selections are snapshots, a[.
                "known finding 'lazy-view-write-through' is classified by an explicit buffer-sharing model; only deviations equal to that model are attributed to it"]
 REQUIRED_FEATURES = ["pending_selection", "write_after_read", "alias_derivation",
                      "three_variables", "selection_of_selection", "write_through_alias", "write_through_read_result", "write_to_callers_buffer"]
-BOUNDS = {"quick": "2 base arrays, 3 variables, every history of depth <= 4 over 10 selectors x 6 writes x 30 reads (all variables / sources), "
+BOUNDS = {"quick": "2 base arrays, 3 variables, every history of depth <= 4 over 11 selectors x 6 writes x 30 reads (all variables / sources), "
                    "plus depth 5 for histories on the first base whose first two steps are derivations; steps V (write through the array a read returned, 7 kinds) and, on a base built over a caller's strided buffer, X (the caller overwrites it); invariant: numpy print / error configuration unchanged after every step",
           "thorough": "3 base arrays, every history of depth <= 4 and depth 5 after two derivations on every base; the caller's-buffer base and the "
                       "four-row base to depth 4 (a depth-5-complete run of the alphabet as it was before rounds 5-10 -- 3.8 M transitions -- is "
@@ -51,6 +51,7 @@ SELS = {
     "cols+": ["t", ["s", None, None, None], ["s", 1, None, None]], "cols-": ["t", ["s", None, None, None], ["s", None, None, -1]],
     "cols2": ["t", ["s", None, None, None], ["s", None, None, 2]],
     "perm": None,
+    "cols3": ["t", ["s", None, None, None], ["s", None, None, 3]],
     "E": "E", "T0": "T0",
 }
 ALIAS = ("E", "T0")
@@ -92,6 +93,8 @@ def shards(tier):
     out += [{"base": ["ext"] + Q_BASES[0], "depth": 3 if tier == "quick" else 4, "part": p, "of": ne} for p in range(ne)]
     # a four-row base (row lists that keep the first and last row in place need four rows), one level less deep
     out += [{"base": [1, 2, 1, 2], "depth": 3 if tier == "quick" else 4, "part": p, "of": ne} for p in range(ne)]
+    # two long rows (composed column steps 3 x 2 only differ from a clipped stride on rows of seven and more cells)
+    out += [{"base": [7, 9], "depth": 3, "part": p, "of": ne} for p in range(ne)]
     return out
 
 
@@ -245,6 +248,8 @@ def enabled(snap):
         for src in live:
             for s in SELS:
                 if s == "perm" and len(snap.v[src]) < 4:
+                    continue
+                if s == "cols3" and max((len(r) for r in snap.v[src]), default=0) < 6:
                     continue
                 ops.append(["D", dst, src, s])
     for x in live:
